@@ -29,6 +29,43 @@ fn vp_of(x: &Sx) -> ValueParser {
         Sx::Sym(k) if k == "bool" => value_parser!(bool),
         Sx::Sym(k) if k == "count" => value_parser!(u8).into(),
         Sx::List(l) if l[0].sym() == "i64" => value_parser!(i64).range(l[1].inum()..=l[2].inum()).into(),
+        Sx::Sym(k) if k == "boolish" => clap::builder::BoolishValueParser::new().into(),
+        Sx::Sym(k) if k == "falsey" => clap::builder::FalseyValueParser::new().into(),
+        Sx::Sym(k) if k == "nonempty" => clap::builder::NonEmptyStringValueParser::new().into(),
+        // (pv (name alias..) (hide name alias..) ..)
+        Sx::List(l) if l[0].sym() == "pv" => {
+            let pvs: Vec<clap::builder::PossibleValue> = l[1..]
+                .iter()
+                .map(|x| {
+                    let items = x.list();
+                    let (hide, items) = match items.first() {
+                        Some(Sx::Sym(h)) if h == "hide" => (true, &items[1..]),
+                        _ => (false, items),
+                    };
+                    let mut pv = clap::builder::PossibleValue::new(s(&items[0])).hide(hide);
+                    for al in &items[1..] {
+                        pv = pv.alias(s(al));
+                    }
+                    pv
+                })
+                .collect();
+            clap::builder::PossibleValuesParser::new(pvs).into()
+        }
+        // (int <type> lo hi) = value_parser!(T).range(lo..=hi)
+        Sx::List(l) if l[0].sym() == "int" => {
+            let (lo, hi) = (l[2].inum(), l[3].inum());
+            match l[1].sym() {
+                "u8" => value_parser!(u8).range(lo..=hi).into(),
+                "i8" => value_parser!(i8).range(lo..=hi).into(),
+                "u16" => value_parser!(u16).range(lo..=hi).into(),
+                "i16" => value_parser!(i16).range(lo..=hi).into(),
+                "u32" => value_parser!(u32).range(lo..=hi).into(),
+                "i32" => value_parser!(i32).range(lo..=hi).into(),
+                "i64" => value_parser!(i64).range(lo..=hi).into(),
+                "u64" => value_parser!(u64).range(l[2].num()..=l[3].num()).into(),
+                x => panic!("int type {x}"),
+            }
+        }
         _ => panic!("vp"),
     }
 }
